@@ -321,6 +321,9 @@ def section_dcs(ck, st, L, Zs, knots, edges, ks, AV, tier, rng):
     quick = tier == 'quick'
     nth, nph = (13, 7) if quick else (19, 9)
     th = np.linspace(0.0, np.pi, nth)
+    # angles outside [0, pi] (the momentum transfer goes negative: FF/SF are undefined, so the aggregate must fail) and tiny angles
+    th = np.concatenate([th, [-np.pi / 2, -0.3, 2 * np.pi + 0.5, 7.0, 1e-3, 1e-4, 2e-6, 1e-8]])
+    nth = len(th)
     ph = np.concatenate([[0.0, np.pi / 2, np.pi], rng.uniform(0, 2 * np.pi, nph - 3)])
     chunk = 30 if quick else 10
     for c0 in range(0, len(Zs), chunk):
